@@ -333,4 +333,14 @@ def r13_6_propagation(repo: Repo, rep: Report):
     rep.check("R13.6", ok, mm, gf, "is_global_fail_set: own frame or any nested frame", "failure inside a nested call would be missed")
 
 
-RULES = [r13_1_selector_table, r13_2_mk_cond, r13_3_sign_and_arity, r13_4_extractors, r13_5_branching, r13_6_propagation]
+def r13_7_shared(repo: Repo, rep: Report):
+    """whether an assertion creates a failing branch is decided by Path.check / Exec.check: `unsat` must come from this
+    path's own solver state (verdict discipline, shared with C02; fork-copy completeness, shared with C20)"""
+    from hsa.rules.c02 import r02_1_verdict_discipline
+    from hsa.rules.c20 import r20_1_fork_copies
+
+    r02_1_verdict_discipline(repo, rep)
+    r20_1_fork_copies(repo, rep)
+
+
+RULES = [r13_7_shared, r13_1_selector_table, r13_2_mk_cond, r13_3_sign_and_arity, r13_4_extractors, r13_5_branching, r13_6_propagation]
